@@ -323,6 +323,23 @@ func (fr *Frame) afterHooks(cx *callCtx, rs []Term, before *State) {
 				env.args = append(env.args, sval{t: a, typ: cx.argTs[i]})
 			}
 		}
+		if ah.UseLemma != "" {
+			var lm *Lemma
+			for _, l := range e.cs.Lemmas {
+				if l.Name == ah.UseLemma {
+					lm = l
+				}
+			}
+			if lm == nil {
+				panic(specErr("unknown lemma " + ah.UseLemma))
+			}
+			lenv := fr.specEnvFor(cx.st)
+			lenv.pkg = lm.Pkg
+			lenv.con = top.con
+			e.vc.assumeIf(cx.st.pc, lenv.evalBool(lm.Expr))
+			e.vc.assumes["lemma "+lm.Name+" (proved separately as lemma."+lm.Name+") instantiated after calls of "+ah.Pattern] = true
+			continue
+		}
 		if ah.Assume {
 			env.old = before
 			e.vc.assumeIf(cx.st.pc, env.evalBool(ah.Expr.Expr))
